@@ -15,7 +15,8 @@
    3. the correspondence predicate C08_agree evaluated by the check. *)
 From Coq Require Import ZArith NArith List Bool.
 From FV Require Import Common.ListX Common.Bytes.
-From FV Require Import gen.Gen_federated_data gen.Gen_in_memory_federated_data gen.Gen_sqlite_federated_data.
+From FV Require Import gen.Gen_client_datasets_pre gen.Gen_federated_data gen.Gen_in_memory_federated_data gen.Gen_sqlite_federated_data.
+From FV Require Model.C15_Model.   (* buffered_shuffle: the mirrored client_datasets.buffered_shuffle of C15 *)
 Import ListNotations.
 Local Open Scope Z_scope.
 
@@ -55,16 +56,20 @@ Definition app_b (g : bfn) (r : raw) : raw :=
   | BMul k => map (fun x => x * k) r
   end.
 
-(* ClientPreprocessor.__call__ / BatchPreprocessor.__call__: `for f in self._fns: out = f(out)` *)
-Definition run_c (i : id) (fs : list cfn) (r : raw) : raw := fold_left (fun acc f => app_c i f acc) fs r.
-Definition run_b (gs : list bfn) (r : raw) : raw := fold_left (fun acc g => app_b g acc) gs r.
+(* how a registered function is called: f(client_id, examples) / g(examples) *)
+Definition applyc (f : cfn) (i : id) (r : raw) : raw := app_c i f r.
+(* ClientPreprocessor.__call__ / BatchPreprocessor.__call__ (TRANSLATED: gen/Gen_federated_data.v,
+   gen/Gen_client_datasets_pre.v): `for f in self._fns: out = f(out)` *)
+Definition run_c (i : id) (fs : list cfn) (r : raw) : raw := client_preprocessor_call applyc fs i r.
+Definition run_b (gs : list bfn) (r : raw) : raw := batch_preprocessor_call app_b gs r.
 
 (* ClientDataset(raw_examples, preprocessor) *)
 Definition dataset := (raw * list bfn)%type.
 Definition client_dataset (i : id) (cs : list cfn) (bs : list bfn) (r : raw) : dataset := (run_c i cs r, bs).
 (* what is observed of a ClientDataset: raw_examples and all_examples() *)
 Definition dobs := (list Z * list Z)%type.
-Definition observe (d : dataset) : dobs := (fst d, run_b (snd d) (fst d)).
+(* all_examples() is the TRANSLATED ClientDataset.all_examples *)
+Definition observe (d : dataset) : dobs := (fst d, client_dataset_all_examples app_b (fst d) (snd d)).
 
 Definition stored_len (r : raw) : Z := Z.of_nat (length r).
 
@@ -100,16 +105,16 @@ Fixpoint gets (get : id -> res dataset) (req : list id) : stream :=
       end
   end.
 
-Fixpoint omap {A B} (f : A -> option B) (l : list A) : option (list B) :=
-  match l with
-  | [] => Some []
-  | x :: l' => match f x, omap f l' with Some y, Some r => Some (y :: r) | _, _ => None end
-  end.
-
-Fixpoint bdedup (l : list id) : list id :=          (* set(client_ids) *)
-  match l with
-  | [] => []
-  | i :: l' => if bmem i l' then bdedup l' else i :: bdedup l'
+(* per-item form of a get_clients loop: `yield <item>` where the item's dataset may raise *)
+Fixpoint gets_items (item : id -> id * res dataset) (req : list id) : stream :=
+  match req with
+  | [] => ([], Done)
+  | i :: req' =>
+      match item i with
+      | (j, Val d) => let (l, e) := gets_items item req' in ((j, d) :: l, e)
+      | (_, KeyErr) => ([], EKey)
+      | (_, Crash) => ([], ECrash)
+      end
   end.
 
 (* ------------------------------------------------------------------ *)
@@ -188,8 +193,7 @@ Inductive fd :=
 Definition mem_ids (tbl : table) : list id := bsort (map fst tbl).
 
 (* {client_id: mapping[client_id] for client_id in client_ids} *)
-Definition restrict (tbl : table) (ids : list id) : option table :=
-  omap (fun i => match bassoc i tbl with Some r => Some (i, r) | None => None end) ids.
+Notation restrict := brestrict (only parsing).
 
 (* SELECT ... FROM federated_data WHERE <_range_where()> ORDER BY rowid *)
 Fixpoint sql_select (start stop : option id) (tbl : table) : option table :=
@@ -202,53 +206,60 @@ Fixpoint sql_select (start stop : option id) (tbl : table) : option table :=
       end
   end.
 
+(* every constructor call below is the TRANSLATED return statement of the method *)
 Fixpoint fd_slice (d : fd) (s e : option id) : option fd :=
   match d with
   | Mem tbl cs bs =>
       match in_memory_slice_ids (mem_ids tbl) s e with
-      | Some ids => match restrict tbl ids with Some t => Some (Mem t cs bs) | None => None end
+      | Some ids => match in_memory_slice_ctor tbl ids cs bs with
+                    | (Some t, cs', bs') => Some (Mem t cs' bs')
+                    | (None, _, _) => None
+                    end
       | None => None
       end
   | Sql tbl st sp cs bs =>
-      match intersect_slice_ranges st sp s e with
-      | Some (st', sp') => Some (Sql tbl st' sp' cs bs)
+      match sqlite_slice st sp cs bs s e with
+      | Some (st', sp', cs', bs') => Some (Sql tbl st' sp' cs' bs')
       | None => None
       end
   | Sub b ids =>
-      match subset_slice_ids ids s e, fd_slice b s e with
-      | Some ids', Some b' => Some (Sub b' ids')
-      | _, _ => None
+      match fd_slice b s e with
+      | Some b' => match subset_slice b' ids s e with
+                   | Some (b'', ids') => Some (Sub b'' ids')
+                   | None => None
+                   end
+      | None => None
       end
   end.
 
 Fixpoint fd_pre_client (d : fd) (f : cfn) : fd :=
   match d with
-  | Mem tbl cs bs => Mem tbl (cs ++ [f]) bs
-  | Sql tbl st sp cs bs => Sql tbl st sp (cs ++ [f]) bs
-  | Sub b ids => Sub (fd_pre_client b f) ids
+  | Mem tbl cs bs => let '(t, cs', bs') := in_memory_preprocess_client tbl cs bs f in Mem t cs' bs'
+  | Sql tbl st sp cs bs => let '(st', sp', cs', bs') := sqlite_preprocess_client st sp cs bs f in Sql tbl st' sp' cs' bs'
+  | Sub b ids => let '(b', ids') := subset_preprocess_client (fd_pre_client b f) ids in Sub b' ids'
   end.
 
 Fixpoint fd_pre_batch (d : fd) (g : bfn) : fd :=
   match d with
-  | Mem tbl cs bs => Mem tbl cs (bs ++ [g])
-  | Sql tbl st sp cs bs => Sql tbl st sp cs (bs ++ [g])
-  | Sub b ids => Sub (fd_pre_batch b g) ids
+  | Mem tbl cs bs => let '(t, cs', bs') := in_memory_preprocess_batch tbl cs bs g in Mem t cs' bs'
+  | Sql tbl st sp cs bs => let '(st', sp', cs', bs') := sqlite_preprocess_batch st sp cs bs g in Sql tbl st' sp' cs' bs'
+  | Sub b ids => let '(b', ids') := subset_preprocess_batch (fd_pre_batch b g) ids in Sub b' ids'
   end.
 
 (* num_clients() *)
 Definition fd_num (d : fd) : res Z :=
   match d with
-  | Mem tbl _ _ => Val (Z.of_nat (length (mem_ids tbl)))
+  | Mem tbl _ _ => Val (in_memory_num_clients (mem_ids tbl))
   | Sql tbl st sp _ _ => match sql_select st sp tbl with Some l => Val (Z.of_nat (length l)) | None => Crash end
-  | Sub _ ids => Val (Z.of_nat (length ids))
+  | Sub _ ids => Val (subset_num_clients ids)
   end.
 
 (* client_ids() *)
 Definition fd_ids (d : fd) : res (list id) :=
   match d with
-  | Mem tbl _ _ => Val (bsort (mem_ids tbl))
+  | Mem tbl _ _ => Val (in_memory_client_ids (mem_ids tbl))
   | Sql tbl st sp _ _ => match sql_select st sp tbl with Some l => Val (map fst l) | None => Crash end
-  | Sub _ ids => Val (bsort ids)
+  | Sub _ ids => Val (subset_client_ids ids)
   end.
 
 (* client_sizes() *)
@@ -266,7 +277,7 @@ Fixpoint fd_sizes (d : fd) : res (list (id * Z)) :=
       end
   | Sub b ids =>
       match fd_sizes b with
-      | Val l => Val (filter (fun kv => bmem (fst kv) ids) l)
+      | Val l => Val (filter (fun kv => subset_client_sizes_keeps ids (fst kv)) l)
       | KeyErr => KeyErr
       | Crash => Crash
       end
@@ -280,52 +291,97 @@ Fixpoint fd_size (d : fd) (i : id) : res Z :=
       if sqlite_client_size_in_range st sp i
       then match bassoc i tbl with Some r => Val (stored_len r) | None => KeyErr end
       else KeyErr
-  | Sub b ids => if bmem i ids then fd_size b i else KeyErr
+  | Sub b ids => if subset_client_size_raises ids i then KeyErr else fd_size b i
   end.
 
 (* get_client(client_id) *)
 Fixpoint fd_get (d : fd) (i : id) : res dataset :=
   match d with
-  | Mem tbl cs bs => match bassoc i tbl with Some r => Val (client_dataset i cs bs r) | None => KeyErr end
+  | Mem tbl cs bs =>
+      match bassoc i tbl with
+      | Some r => match in_memory_client_dataset applyc cs bs i r with Some dd => Val dd | None => Crash end
+      | None => KeyErr
+      end
   | Sql tbl st sp cs bs =>
       if sqlite_get_client_in_range st sp i
-      then match bassoc i tbl with Some r => Val (client_dataset i cs bs r) | None => KeyErr end
+      then match bassoc i tbl with
+           | Some r => match sqlite_client_dataset applyc cs bs i r with Some dd => Val dd | None => Crash end
+           | None => KeyErr
+           end
       else KeyErr
-  | Sub b ids => if bmem i ids then fd_get b i else KeyErr
+  | Sub b ids => if subset_get_client_raises ids i then KeyErr else fd_get b i
   end.
 
 (* `for client_id, dataset in self._base.get_clients(...): if client_id not in self._client_ids: raise KeyError` *)
 Fixpoint sub_filter (ids : list id) (l : list (id * dataset)) (e : ending) : stream :=
   match l with
   | [] => ([], e)
-  | (i, d) :: l' => if bmem i ids then let (r, e') := sub_filter ids l' e in ((i, d) :: r, e') else ([], EKey)
+  | (i, d) :: l' => if subset_get_clients_raises ids i then ([], EKey)
+                    else let (r, e') := sub_filter ids l' e in (subset_get_clients_item i d :: r, e')
   end.
 
 (* get_clients(client_ids) *)
 Fixpoint fd_gets (d : fd) (req : list id) : stream :=
   match d with
-  | Mem _ _ _ => gets (fd_get d) req       (* yield client_id, self._client_dataset(client_id) *)
-  | Sql _ _ _ _ _ => gets (fd_get d) req   (* yield client_id, self.get_client(client_id) *)
+  | Mem _ _ _ => gets_items (in_memory_get_clients_item (fd_get d)) req   (* yield client_id, self._client_dataset(client_id) *)
+  | Sql _ _ _ _ _ => gets_items (sqlite_get_clients_item (fd_get d)) req  (* yield client_id, self.get_client(client_id) *)
   | Sub b ids => let (l, e) := fd_gets b req in sub_filter ids l e
   end.
 
 (* clients() *)
 Definition fd_clients (d : fd) : stream :=
   match d with
-  | Mem tbl _ _ => fd_gets d (mem_ids tbl)
+  | Mem tbl _ _ => fd_gets d (in_memory_clients_request (mem_ids tbl))
   | Sql tbl st sp cs bs =>
       match sql_select st sp tbl with
-      | Some l => (map (fun kv => (fst kv, client_dataset (fst kv) cs bs (snd kv))) l, Done)
+      | Some l =>
+          (* for k, v in self._read_clients(): yield k, self._client_dataset(k, v) *)
+          match omap (fun kv => match sqlite_clients_item (sqlite_client_dataset applyc cs bs) (fst kv) (snd kv) with
+                                | (k, Some dd) => Some (k, dd)
+                                | (_, None) => None
+                                end) l with
+          | Some out => (out, Done)
+          | None => ([], ECrash)
+          end
       | None => ([], ECrash)
       end
-  | Sub _ ids => fd_gets d (bsort ids)
+  | Sub _ ids => fd_gets d (subset_clients_request ids)
+  end.
+
+(* One pass of shuffled_clients(buffer_size, seed).  The random choices are oracle arguments
+   (the Lehmer code of rng.shuffle(buf), the rng.randint(buffer_size) draws), recorded by the
+   harness from the RandomState the implementation creates.
+     in-memory / subset:  buffered_shuffle(self.clients(), buffer_size, rng)
+     SQLite:              for k, v in buffered_shuffle(self._read_clients(), ..): yield k, self._client_dataset(k, v) *)
+Definition fd_shuffled_pass (d : fd) (B : Z) (code : list nat) (draws : list Z) : option (list (id * dataset)) :=
+  match d with
+  | Sql tbl st sp cs bs =>
+      match sql_select st sp tbl with
+      | Some rows =>
+          match C15_Model.buffered_shuffle B code draws rows false with
+          | C15_Model.SOk out =>
+              omap (fun kv => match sqlite_clients_item (sqlite_client_dataset applyc cs bs) (fst kv) (snd kv) with
+                              | (k, Some dd) => Some (k, dd)
+                              | (_, None) => None
+                              end) out
+          | _ => None
+          end
+      | None => None
+      end
+  | _ =>
+      match fd_clients d with
+      | (l, Done) => match C15_Model.buffered_shuffle B code draws l false with
+                     | C15_Model.SOk out => Some out
+                     | _ => None
+                     end
+      | _ => None
+      end
   end.
 
 (* SubsetFederatedData(base, client_ids, validate=True): None = ValueError *)
 Definition fd_subset (d : fd) (ids : list id) : option fd :=
-  let s := bdedup ids in
   match fd_ids d with
-  | Val have => if forallb (fun i => bmem i have) s then Some (Sub d s) else None
+  | Val have => match subset_init have ids true with Some s => Some (Sub d s) | None => None end
   | _ => None
   end.
 
@@ -418,18 +474,22 @@ Record vobs := mkV {
   o_sizes : eres (list (Z * Z));
   o_size : list (eres Z);            (* client_size on every universe id *)
   o_clients : estream;
-  o_shuffled : list (Z * dobs);    (* one pass of shuffled_clients *)
+  o_shuffled : list (list nat * list Z * list (Z * dobs));   (* passes of shuffled_clients: oracle, items *)
   o_get : list (eres dobs);          (* get_client on every universe id *)
   o_gets : list estream              (* get_clients on every request *)
 }.
 
-Definition model_vobs (u : list id) (reqs : list (list id)) (d : fd) : vobs :=
+Definition model_vobs (u : list id) (reqs : list (list id)) (buf : Z)
+    (oracles : list (list nat * list Z)) (d : fd) : vobs :=
   mkV (to_eres (fun z => z) (fd_num d))
       (to_eres (map (idx_of u)) (fd_ids d))
       (to_eres (map (fun kv => (idx_of u (fst kv), snd kv))) (fd_sizes d))
       (map (fun i => to_eres (fun z => z) (fd_size d i)) u)
       (to_estream u (fd_clients d))
-      []
+      (map (fun cd => match fd_shuffled_pass d buf (fst cd) (snd cd) with
+                      | Some out => (fst cd, snd cd, fst (to_estream u (out, Done)))
+                      | None => (fst cd, snd cd, [(-1, ([], []))])      (* never equal to an observation *)
+                      end) oracles)
       (map (fun i => to_eres observe (fd_get d i)) u)
       (map (fun r => to_estream u (fd_gets d r)) reqs)
   .
@@ -441,13 +501,8 @@ Definition eres_eqb {A} (eqb : A -> A -> bool) (a b : eres A) : bool :=
   match a, b with V x, V y => eqb x y | K, K => true | X, X => true | _, _ => false end.
 Definition estream_eqb (a b : estream) := list_beq nd_eqb (fst a) (fst b) && Z.eqb (snd a) (snd b).
 
-(* a shuffled pass is SOME permutation of clients(): compare after sorting by index *)
-Fixpoint nd_insert (x : Z * dobs) (l : list (Z * dobs)) :=
-  match l with
-  | [] => [x]
-  | y :: l' => if Z.leb (fst x) (fst y) then x :: l else y :: nd_insert x l'
-  end.
-Definition nd_sort (l : list (Z * dobs)) := fold_right nd_insert [] l.
+Definition pass_eqb (a b : list nat * list Z * list (Z * dobs)) : bool :=
+  list_beq Nat.eqb (fst (fst a)) (fst (fst b)) && lz_eqb (snd (fst a)) (snd (fst b)) && list_beq nd_eqb (snd a) (snd b).
 
 Definition vobs_agree (m o : vobs) : bool :=
   eres_eqb Z.eqb (o_num m) (o_num o) &&
@@ -455,7 +510,7 @@ Definition vobs_agree (m o : vobs) : bool :=
   eres_eqb (list_beq (fun a b => Z.eqb (fst a) (fst b) && Z.eqb (snd a) (snd b))) (o_sizes m) (o_sizes o) &&
   list_beq (eres_eqb Z.eqb) (o_size m) (o_size o) &&
   estream_eqb (o_clients m) (o_clients o) &&
-  list_beq nd_eqb (nd_sort (fst (o_clients m))) (nd_sort (o_shuffled o)) &&
+  list_beq pass_eqb (o_shuffled m) (o_shuffled o) &&
   list_beq (eres_eqb dobs_eqb) (o_get m) (o_get o) &&
   list_beq estream_eqb (o_gets m) (o_gets o).
 
@@ -463,7 +518,8 @@ Record C08_case := mkC08 {
   c_ds : table;                 (* the logical dataset, in insertion (rowid / dict) order *)
   c_aliens : list id;           (* ids that are not clients *)
   c_ops : list op;
-  c_reqs : list (list id)
+  c_reqs : list (list id);
+  c_buf : Z                     (* buffer_size of shuffled_clients *)
 }.
 
 (* one observed view: which pipeline, after how many operations, which operations were refused
@@ -478,7 +534,9 @@ Definition C08_agree (c : C08_case) (o : C08_obs) : bool :=
     match e with
     | (p, k, fl, ob) =>
         match impl_run p (c_ds c) (firstn (Z.to_nat k) (c_ops c)) with
-        | Some (d, fl') => flags_eqb fl' fl && vobs_agree (model_vobs u (c_reqs c) d) ob
+        | Some (d, fl') =>
+            flags_eqb fl' fl &&
+            vobs_agree (model_vobs u (c_reqs c) (c_buf c) (map fst (o_shuffled ob)) d) ob
         | None => false
         end
     end) o.
